@@ -4,10 +4,11 @@
    [step c v f e] is the literal transcription of pkg/ppp/fsm.go (Model.v part 1).
    v = Repaired is what /repo HEAD implements for every event of the RFC alphabet (the fixes d6fc4b1
    and 488e192 are in); v = Defective is fsm.go before those fixes (kept for the _refuted witnesses).
-   Two recorded findings remain open on HEAD, both outside [step]'s packet/administrative events:
-   Restore() leaves the restart counter at 0 ([restore false]; repaired: [restore true]) and the timer
-   callback runs Timeout() even when the timer was stopped/restarted meanwhile ([raw_timeout];
-   repaired: a timer expiry needs a pending timer, which is what ETimeout means in [step]).
+   Two further findings were fixed later and have historical witnesses here: Restore() used to leave
+   the restart counter at 0 ([restore false]; HEAD since fe05ccf: [restore true]) and the timer callback
+   used to run Timeout() even when the timer had been stopped/restarted meanwhile ([raw_timeout]; HEAD
+   since bbcb995: a timer expiry needs a pending timer, which is what ETimeout means in [step]).
+   No finding of this property is open; every _refuted theorem below is about code before the named commit.
    [rfc1661] is the table of RFC 1661 section 4.1 transcribed independently (Model.v part 2), and
    Rfc2.v a second transcription in the RFC's own row layout.
    All theorems hold for every configuration c = (maxConf, maxTerm, is-LCP), every value of the
@@ -286,8 +287,8 @@ Example C05_fresh_negotiation_nonvacuous :
 Proof. exact fresh_nonvac. Qed.
 Print Assumptions C05_fresh_negotiation_nonvacuous.
 
-(* Open finding 1 (HEAD): Restore() leaves the restart counter at 0, so the first renegotiation of a
-   restored session is abandoned at the first timeout without a retransmission. *)
+(* Historical (fixed in fe05ccf): Restore() left the restart counter at 0, so the first renegotiation of a
+   restored session was abandoned at the first timeout without a retransmission. *)
 Theorem C05_restore_budget_refuted :
   let f := step default_cfg Repaired (restore false default_cfg init) RCRp in
   st f = AckSent /\ restart f = 0 /\ armed f = true /\
@@ -303,8 +304,8 @@ Example C05_restore_budget_nonvacuous :
 Proof. exact restore_budget_nonvac. Qed.
 Print Assumptions C05_restore_budget_nonvacuous.
 
-(* Open finding 2 (HEAD): the timer callback runs Timeout() although the timer was stopped while the
-   callback waited for the mutex; in Opened that eats one retransmission of the next negotiation.
+(* Historical (fixed in bbcb995): the timer callback ran Timeout() although the timer was stopped while the
+   callback waited for the mutex; in Opened that ate one retransmission of the next negotiation.
    As an event of the model a timer expiry needs a pending timer and otherwise does nothing. *)
 Theorem C05_late_timer_fire_refuted :
   let f := run default_cfg Repaired init [EOpen; EUp; RCRp; RCA1] in
